@@ -278,7 +278,13 @@ func monC07sso(c *Ctx, r *SsoRun) {
 	c.hist("conformant", "yes")
 	if !r.accepted() || r.Deliv.Kind != "login303" {
 		cl := fmt.Sprintf("binding=%s", r.Facts.Binding)
-		for _, k := range []string{"encoding", "embedded", "sig", "notbefore", "style", "protobinding", "acs"} {
+		if r.Facts.Binding == "redirect" && r.Case["sig"] == "valid" && r.Case["escstyle"] != "go" {
+			// the simulated SP signed (and sent) the query in a legal percent-encoding that is not Go's url.QueryEscape form
+			c.issue(Issue{Kind: "violation", What: "conformant signed Redirect-binding AuthnRequest was not accepted", Site: "ServiceProvider.ValidateRedirectSignature",
+				Class: "redirect-signature-percent-encoding:" + r.Case["escstyle"], Detail: r.detail()})
+			return
+		}
+		for _, k := range []string{"encoding", "embedded", "sig", "escstyle", "notbefore", "style", "protobinding", "acs"} {
 			if r.Case[k] != baseCase()[k] {
 				cl += "," + k + "=" + r.Case[k]
 			}
